@@ -9,6 +9,7 @@ from vmon.refs.ec import SECP256K1 as C
 from vmon.gen import scriptgen as G
 
 PROPERTY = "C05"
+PRELOAD_NETWORK_ORDERS = [["btc", "xtn", "ltc", "bch", "grs", "doge", "dash", "btg"], ["btg", "grs", "bch", "doge", "ltc", "xtn", "btc"]]
 LEVEL = "exploration"
 TECHNIQUE = "offline checker over recorded signing histories: after every tx.sign / sign_tx step the real transaction is re-validated by pycoin and by the reference interpreter, signatures are checked for canonical form, and a field-level frame snapshot is compared"
 RULE = ("signing histories: a transaction of 1-5 inputs over the standard puzzle kinds (P2PK, P2PKH, P2WPKH, P2SH-P2WPKH, bare/P2SH/P2WSH/P2SH-P2WSH "
